@@ -299,6 +299,21 @@ def check_tables(ctx, P):
         ediscr = {int(v["discr"]): v["name"] for v in edt["variants"] if not v["fields"]}
         ok = mask == {0x1F} and all(et.get(d) == n for d, n in ediscr.items())
         ctx.ob("c.tables", "channel-error-table", ok, "ChannelError::from_diag_byte2 table %s (mask %s) disagrees with the enum discriminants %s / mask 0x1f" % (et, sorted(mask), ediscr), ef.loc(0))
+        # the two payload-carrying variants: manufacturer specific error types are 16..=31, everything else that is not a named type is reserved
+        ena = NumAnalysis(ef, P)
+        rng = {}
+        for b, i, s in stmts(ef):
+            if "a" in s and "agg" in s["rv"] and s["rv"].get("adt", "").endswith("ChannelError") and s["rv"].get("variant") in ("Vendor", "Reserved") and s["rv"]["fields"]:
+                lo, hi = None, None
+                for st in ena.states_before(b, i):
+                    v = ena.ev_operand(st, s["rv"]["fields"][0])
+                    lo = v["lo"] if lo is None else min(lo, v["lo"])
+                    hi = v["hi"] if hi is None else max(hi, v["hi"])
+                rng[s["rv"]["variant"]] = (lo, hi)
+        vr = tuple(EB["channel_error_vendor_range"])
+        ctx.ob("c.tables", "channel-error-vendor-range", rng.get("Vendor") == vr and rng.get("Reserved") is not None and rng["Reserved"][1] < vr[0],
+               "ChannelError::from_diag_byte2 decodes error types %s as manufacturer specific (specification: %s..=%s) and %s as reserved" % (
+                   rng.get("Vendor"), vr[0], vr[1], rng.get("Reserved")), ef.loc(0))
         ctx.sample({"block_kinds": {str(k): v for k, v in kinds.items()}, "datatype": {str(k): v for k, v in dt.items()}, "errors": {str(k): v for k, v in et.items()}})
     except KeyError as e:
         ctx.ob("c.tables", "anchor-channel-tables", False, str(e))
